@@ -361,3 +361,35 @@ Proof.
   vm_compute. repeat split; reflexivity.
 Qed.
 
+
+(* ---- the whole backward pipeline as one operation sequence: ... ; sync ; reverse ---- *)
+Lemma run_app ops1 : forall ops2 b, run b (ops1 ++ ops2) =
+  match run b ops1 with Ok (Some b1) => run b1 ops2 | Ok None => Ok None | Error e => Error e end.
+Proof.
+  induction ops1 as [|o t IH]; intros ops2 b; cbn [run app]; [reflexivity|].
+  destruct (step b o) as [[[r b1]|]|]; [apply IH|reflexivity|reflexivity].
+Qed.
+
+Lemma sync_Idle0 b b' : sync b = Ok (Some b') -> Idle0 b'.
+Proof.
+  unfold sync. destruct (negb (out_mode b)); [discriminate|]. destruct (negb (ok b)); [discriminate|].
+  destruct (next_glyphs b (length (rest b))) as [b1|]; cbn [bind]; [|discriminate].
+  destruct (negb (ok b1)); [discriminate|]. intros E; inversion E. repeat split.
+Qed.
+
+Theorem run_sync_reverse ops b b2 :
+  Mono b -> guarded2 b (ops ++ [OSync]) -> run b (ops ++ [OSync; OReverse]) = Ok (Some b2) -> AMono b2.
+Proof.
+  intros HM HG Hr.
+  change (ops ++ [OSync; OReverse]) with (ops ++ ([OSync] ++ [OReverse])) in Hr. rewrite app_assoc in Hr.
+  rewrite run_app in Hr.
+  destruct (run b (ops ++ [OSync])) as [[b1|]|] eqn:E1; try discriminate.
+  pose proof (run_mono2 _ _ _ HM HG E1) as HM1.
+  (* the last operation of the first part was a successful sync *)
+  rewrite run_app in E1. destruct (run b ops) as [[b0|]|] eqn:E0; try discriminate.
+  cbn [run step] in E1. destruct (sync b0) as [[bs|]|] eqn:Es; try discriminate. inversion E1; subst bs.
+  pose proof (sync_Idle0 _ _ Es) as HI.
+  cbn [run step] in Hr. destruct HI as [Hout [Hd Hp]]. rewrite Hout in Hr.
+  destruct (reverse b1) as [br|] eqn:Er; [|discriminate]. inversion Hr; subst br.
+  destruct (reverse_Mono_AMono b1 b2 (conj Hout (conj Hd Hp)) HM1 Er) as [H _]. exact H.
+Qed.
